@@ -234,6 +234,68 @@ def clearO : Option Nat → List (Option Nat) → List (Option Nat)
 @[simp] theorem clearO_none (l) : clearO none l = l := rfl
 @[simp] theorem clearO_some (k l) : clearO (some k) l = clear k l := rfl
 
+theorem count_clear_le (k c : Nat) (l : List (Option Nat)) :
+    (clear k l).count (some c) ≤ l.count (some c) := by
+  induction l with
+  | nil => simp
+  | cons o l ih =>
+    by_cases ho : o = some k
+    · subst ho
+      by_cases hkc : k = c
+      · subst hkc; simp; omega
+      · simp [hkc]; omega
+    · simp only [clear_cons, ho, if_false, List.count_cons]
+      split <;> omega
+
+theorem firstNone_lt {l : List (Option Nat)} {j : Nat} (h : firstNone l = some j) : j < l.length := by
+  induction l generalizing j with
+  | nil => simp [firstNone] at h
+  | cons o l ih =>
+    by_cases ho : o = none
+    · subst ho
+      simp only [firstNone, if_true, Option.some.injEq] at h
+      subst h; simp
+    · simp only [firstNone, ho, if_false, Option.map_eq_some_iff] at h
+      obtain ⟨i, hi, rfl⟩ := h
+      have := ih hi
+      simp; omega
+
+theorem mem_set_firstNone {l : List (Option Nat)} {j v c : Nat} (h : firstNone l = some j) :
+    some c ∈ l.set j (some v) ↔ c = v ∨ some c ∈ l := by
+  induction l generalizing j with
+  | nil => simp [firstNone] at h
+  | cons o l ih =>
+    by_cases ho : o = none
+    · subst ho
+      simp only [firstNone, if_true, Option.some.injEq] at h
+      subst h
+      simp
+    · simp only [firstNone, ho, if_false, Option.map_eq_some_iff] at h
+      obtain ⟨i, hi, rfl⟩ := h
+      simp only [List.set_cons_succ, List.mem_cons, ih hi]
+      grind
+
+theorem count_set_firstNone {l : List (Option Nat)} {j v : Nat} (c : Nat) (h : firstNone l = some j) :
+    (l.set j (some v)).count (some c) = l.count (some c) + (if c = v then 1 else 0) := by
+  induction l generalizing j with
+  | nil => simp [firstNone] at h
+  | cons o l ih =>
+    by_cases ho : o = none
+    · subst ho
+      simp only [firstNone, if_true, Option.some.injEq] at h
+      subst h
+      by_cases hc : c = v
+      · subst hc; simp
+      · have : ¬ v = c := fun e => hc e.symm
+        simp [hc, this]
+    · simp only [firstNone, ho, if_false, Option.map_eq_some_iff] at h
+      obtain ⟨i, hi, rfl⟩ := h
+      simp only [List.set_cons_succ, List.count_cons, ih hi]
+      omega
+
+theorem count_eq_zero_of_not_mem {c : Nat} {l : List (Option Nat)} (h : some c ∉ l) :
+    l.count (some c) = 0 := List.count_eq_zero.2 h
+
 theorem set_set_same {α} (l : List α) (i : Nat) (a b : α) : (l.set i a).set i b = l.set i b := by
   simp
 
